@@ -166,6 +166,7 @@ def variants_of(base: bytes, rng, ctx, exhaustive_flips: bool) -> None:
         check_variant(p1_gen.with_checksum_text(base, mixed.encode()), True, ctx, rng, "correct_mixedcase")
     check_variant(p1_gen.with_checksum_text(base, b""), True, ctx, rng, "no_checksum")
     ident_variants(base, rng, ctx)
+    end_character_in_ident_variants(base, rng, ctx)
     data_variants(base, rng, ctx)
     for text, label in ((0, "0000"), (1, "0001"), (0xFFFF, "FFFF"), (((good & 0xFF) << 8) | (good >> 8), "byte_swapped"), (good ^ 0xFFFF, "complemented"), ((good + 1) & 0xFFFF, "plus1"), ((good - 1) & 0xFFFF, "minus1"),
                         (good ^ (1 << rng.randrange(16)), "one_bit"), (rng.randrange(65536), "random")):
@@ -186,7 +187,7 @@ def variants_of(base: bytes, rng, ctx, exhaustive_flips: bool) -> None:
 
 
 IDENT_DAMAGE = ("bare_cr", "control_char", "bit_flip", "no_baud_digit", "digit_in_manufacturer", "lower_case_first_letter", "slash_only",
-                "over_long", "embedded_lf", "blank_before_slash_text", "second_slash", "high_bit")
+                "over_long", "embedded_lf", "blank_before_slash_text", "second_slash", "high_bit", "utf8_digit_for_baud", "utf8_after_escape", "utf8_space_at_end", "utf8_letter_in_id")
 
 
 def damaged_ident(base: bytes, rng, kind: str) -> bytes | None:
@@ -200,6 +201,17 @@ def damaged_ident(base: bytes, rng, kind: str) -> bytes | None:
         line.insert(rng.randrange(1, len(line) + 1), rng.choice((0x00, 0x09, 0x0B, 0x1B, 0x1F, 0x7F)))
     elif kind == "high_bit":
         line.insert(rng.randrange(1, len(line) + 1), rng.choice((0x80, 0x85, 0xA0, 0xC5, 0xFF)))
+    elif kind == "utf8_digit_for_baud":
+        # well-formed multi-byte UTF-8 (a lone high byte is rejected by any text decoder; these are not): digits and letters of other scripts
+        line[4:5] = rng.choice(("\u0665", "\uff15", "\u0969", "\u00b2")).encode("utf-8")
+    elif kind == "utf8_after_escape":
+        line[5:5] = b"\\" + rng.choice(("\u00e9", "\u0665", "\u6f22", "\u00df")).encode("utf-8")
+    elif kind == "utf8_space_at_end":
+        line += rng.choice(("\u00a0", "\u0085", "\u2003", "\u3000", "\u2028")).encode("utf-8")
+    elif kind == "utf8_letter_in_id":
+        line.insert(rng.randrange(5, len(line) + 1), 0)
+        i = line.index(0, 5)
+        line[i : i + 1] = rng.choice(("\u00e4", "\u6f22", "\U0001f50c", "\u0416")).encode("utf-8")
     elif kind == "bit_flip":
         i = rng.randrange(len(line))
         line[i] ^= 1 << rng.randrange(8)
@@ -300,6 +312,30 @@ def run_sized(shard: dict, ctx) -> None:
             judge(d.as_bytes, p1_mon.observe(d), ctx, dict(case, via="direct"), expect, "DataReadout(bytes)")
         ctx.count("end_character_positions_swept")
         ctx.maximum("largest_end_character_index", t)
+
+
+def end_character_in_ident_variants(base: bytes, rng, ctx) -> None:
+    """The end character inside the identification line (a printable character like any other there): '/XXX5id!' followed by a checksum
+    that is right, wrong or absent, with nothing else, and with a data block and a second end line behind it."""
+    lf = base.find(b"\n")
+    eol = b"\r\n" if base[lf - 1 : lf] == b"\r" else b"\n"
+    ident = base[: lf + 1 - len(eol)]
+    cut = rng.randrange(5, len(ident) + 1)
+    head = ident[:cut] + b"!"
+    good = crc16.crc16(head)
+    rest = base[lf + 1 :]
+    for text, label in ((b"%04X" % good, "right"), (b"%04X" % ((good + 1) & 0xFFFF), "wrong"), (b"%04X" % (good ^ 0x8000), "wrong_high_bit"), (b"", "absent")):
+        for tail in (eol, ident[cut:] + eol + rest):
+            r = head + text + tail
+            ctx.count("end_character_inside_the_identification_line")
+            case = {"readout": r, "label": "bang_in_ident_" + label, "expect_valid": None}
+            from han.dlde import DataReadout
+
+            d, ex = p1_mon.safe(lambda: DataReadout(r))
+            if ex is None:
+                judge(d.as_bytes, p1_mon.observe(d), ctx, dict(case, via="direct"), None, "DataReadout(bytes)")
+            else:
+                ctx.count("constructor_raised")
 
 
 def find_zero_crc(rng, ctx):
